@@ -202,6 +202,12 @@ class Builder:
     def _lst(self, r):
         return list(r[1])
 
+    def _cvec(self, r):
+        """an expression vector whose elements are Constants (built through the public VectorExpression class)"""
+        from optyx.core.vectors import VectorExpression
+
+        return VectorExpression([Constant(float(v)) for v in r[1]])
+
     def _slice(self, r):
         return self.build(r[1])[slice(r[2], r[3], r[4])]
 
@@ -254,8 +260,12 @@ class Builder:
             big = np.zeros((a.shape[0] * 2, a.shape[1] * 2))
             big[::2, ::2] = a
             return big[::2, ::2]
+        if layout == "rev":                    # view with negative strides in both axes
+            return np.array(a[::-1, ::-1])[::-1, ::-1]
         if layout == "int":
             return np.array(r[1])
+        if layout == "bool":
+            return np.array(r[1], dtype=bool)
         return a
 
     def _lst2(self, r):
